@@ -56,16 +56,22 @@ def crlf2 : Bytes := [13, 10, 13, 10]
 /-- the closing delimiter `\r\n--<boundary>--\r\n` -/
 def closing (n : Nat) : Bytes := bDelim ++ boundary n ++ [45, 45, 13, 10]
 
+def bStatus : Bytes := [72, 84, 84, 80, 47, 49, 46, 49, 32, 50, 48, 54, 32, 80, 97, 114, 116, 105, 97, 108, 32, 67, 111, 110, 116, 101, 110, 116, 13, 10]   -- "HTTP/1.1 206 Partial Content\r\n"
+def bMP : Bytes := [67, 111, 110, 116, 101, 110, 116, 45, 84, 121, 112, 101, 58, 32, 109, 117, 108, 116, 105, 112, 97, 114, 116, 47, 98, 121, 116, 101, 114, 97, 110, 103, 101, 115, 59, 32, 98, 111, 117, 110, 100, 97, 114, 121, 61]   -- "Content-Type: multipart/byteranges; boundary="
+def bCL : Bytes := [67, 111, 110, 116, 101, 110, 116, 45, 76, 101, 110, 103, 116, 104, 58, 32]   -- "Content-Length: "
+def bCTline : Bytes := [67, 111, 110, 116, 101, 110, 116, 45, 84, 121, 112, 101, 58, 32, 97, 112, 112, 108, 105, 99, 97, 116, 105, 111, 110, 47, 111, 99, 116, 101, 116, 45, 115, 116, 114, 101, 97, 109, 13, 10]   -- "Content-Type: application/octet-stream\r\n"
+#guard bStatus == asciiBytes "HTTP/1.1 206 Partial Content\r\n"
+#guard bMP == asciiBytes "Content-Type: multipart/byteranges; boundary="
+#guard bCL == asciiBytes "Content-Length: "
+#guard bCTline == asciiBytes "Content-Type: application/octet-stream\r\n"
+
 /-- the header lines of a multipart response whose body has `len` bytes -/
 def mpLines (n len : Nat) : List Bytes :=
-  [asciiBytes "HTTP/1.1 206 Partial Content\r\n",
-   asciiBytes "Content-Type: multipart/byteranges; boundary=" ++ boundary n ++ asciiBytes "\r\n",
-   asciiBytes s!"Content-Length: {len}\r\n", asciiBytes "\r\n"]
+  [bStatus, bMP ++ boundary n ++ [13, 10], bCL ++ dec len ++ [13, 10], [13, 10]]
 
 /-- the header lines of a single-range response -/
 def singleLines (total : Nat) (r : Nat × Nat) : List Bytes :=
-  [asciiBytes "HTTP/1.1 206 Partial Content\r\n", asciiBytes "Content-Type: application/octet-stream\r\n",
-   asciiBytes s!"Content-Range: bytes {r.1}-{r.2}/{total}\r\n", asciiBytes "\r\n"]
+  [bStatus, bCTline, bCR ++ dec r.1 ++ [45] ++ dec r.2 ++ [47] ++ dec total ++ [13, 10], [13, 10]]
 
 /-- response header lines and body for the (clipped) ranges -/
 def respond (n : Nat) (B : Bytes) (rs : List (Nat × Nat)) : List Bytes × Bytes :=
